@@ -12,6 +12,10 @@ func (p *Packet) Marshal() ([]byte, error) {
 	return p.MarshalVTStrict()
 }
 
+func (p *Packet) MarshalTo(dAtA []byte) (int, error) {
+	return p.MarshalToVT(dAtA)
+}
+
 func (p *Packet) Unmarshal(dAtA []byte) error {
 	return p.UnmarshalVT(dAtA)
 }
